@@ -312,8 +312,11 @@ class Ctx:
         os.makedirs(evdir, exist_ok=True)
         with open(os.path.join(evdir, f"{self.prop}.json"), "w") as f:
             json.dump(ev, f, indent=1, default=str)
+        _printed = set()
         for k in self.known_hits:
-            print(f"KNOWN-FINDING: property={self.prop} {k['key']}: {k['what']}")
+            if k["key"] not in _printed:
+                _printed.add(k["key"])
+                print(f"KNOWN-FINDING: property={self.prop} {k['key']}: {k['what']}")
         print(f"[{self.prop} {self.tier}] obligations={len(obs)} confirmed={n_conf} refuted={n_cx} "
               f"inconclusive={n_inc} errors={n_err} paths={paths} wall={ev['wall_s']}s")
         for o in obs:
